@@ -288,12 +288,24 @@ def grammar_obligations(prop, tier, seed):
                 o = ob(name + ' keeps-every-derivable-sentence', ['C06'], False, info)
             else:
                 ok = (pa_n == (want if want == 'error' else want))
-                o = ob(name, ['C06', 'C15'] if a == 'COMMA' else ['C06'], ok, info)
+                # the suffix forms x.f(a) / x | f(a) and the trailing comma are surface syntax (C15)
+                surface = a in ('COMMA', 'DOT', 'PIPE') or any(c[0] == 'reduce' and set(g.prods[c[1]][1]) & {'DOT', 'PIPE'} for c in cands)
+                o = ob(name, ['C06', 'C15'] if surface else ['C06'], ok, info)
             obs.append(o)
         import hashlib
         hh = hashlib.sha256(kernel_name(lalr, s).encode()).hexdigest()[:6]
         obs.append(ob('C06:table[state %s@%s]:unambiguous-cells-hold-their-only-action' % (kernel_name(lalr, s)[:90], hh), ['C06', 'C15'],
                       not plain_bad, {'differences': plain_bad[:10], 'state': ps}))
+    # the grammar is the published one: no production lost (a lost one rejects texts the grammar derives), none with
+    # another %prec; a production that is not published has no tree spec (contracts/rules.py: has-a-tree-spec)
+    from contracts.published import PUBLISHED_PRODUCTIONS
+    have = {(lhs, tuple(rhs)): prec for lhs, rhs, prec, fn in sprods}
+    for lhs, rhs, prec in PUBLISHED_PRODUCTIONS:
+        nm = '%s -> %s' % (lhs, ' '.join(rhs) or 'ε')
+        surface = bool(set(rhs) & {'COMMA', 'DOT', 'PIPE', 'NEWLINE', 'COMMENT'}) or not rhs
+        obs.append(ob('C06:grammar:published-production-is-present[%s]' % nm, ['C06', 'C15'] if surface else ['C06'],
+                      (lhs, tuple(rhs)) in have and have[(lhs, tuple(rhs))] == prec,
+                      {'present': (lhs, tuple(rhs)) in have, 'prec': have.get((lhs, tuple(rhs))), 'published_prec': prec}))
     # Y2 (C15): a trailing comma stays acceptable wherever the grammar has one
     for lhs, rhs, prec, fn in sprods:
         if len(rhs) >= 2 and rhs[-2] == 'COMMA' and rhs[-1] in ('RPAREN', 'RBRACKET', 'RBRACE'):
